@@ -233,6 +233,46 @@ def mk_ident_conv(nb, stride=False, pw=0):
                             spec=lambda: L.DownScoreboard(1, nb, 0, False, vtc=True))), nb)
 
 
+def mk_pipeactor(lat, nb, tokens=None):
+    """PipelinedActor(latency) from /repo (control path: valid/first/last chains, pipe_ce, busy) with the data
+    register chain every subclass adds: `lat` stages gated by pipe_ce."""
+    from migen import Signal, If
+    from litex.soc.interconnect.stream import Endpoint, PipelinedActor
+
+    class PA(PipelinedActor):
+        def __init__(self):
+            self.sink = Endpoint([("data", nb)])
+            self.source = Endpoint([("data", nb)])
+            PipelinedActor.__init__(self, lat)
+            d = self.sink.data
+            for _ in range(lat):
+                dn = Signal(nb)
+                self.sync += If(self.pipe_ce, dn.eq(d))
+                d = dn
+            self.comb += self.source.data.eq(d)
+
+    return ident("PipelinedActor(%d)/%db" % (lat, nb), PA(), "pipeactor %d" % lat, lat, nb, tokens=tokens)
+
+
+def mk_crossbar(n, nb, tokens=None):
+    """stream.Crossbar(layout, n) used as a crossbar: demux.source_k connected to mux.sink_k."""
+    from litex.gen import LiteXModule
+
+    class X(LiteXModule):
+        def __init__(self):
+            self.xbar = stream.Crossbar([("data", nb)], n)
+            self.sink, self.source = self.xbar.demux.sink, self.xbar.mux.source
+            for k in range(n):
+                self.comb += getattr(self.xbar.demux, "source%d" % k).connect(getattr(self.xbar.mux, "sink%d" % k))
+
+    m = X()
+    nsel = L.sel_values(n)
+    return DW(RG(StreamInst("Crossbar(%d)/%db" % (n, nb), m, "crossbar %d" % n, tokens=tokens or toks(nb),
+                            extra_inputs=[m.xbar.demux.sel, m.xbar.mux.sel],
+                            extra_alphabet=[(a, c) for a in range(nsel) for c in range(nsel)],
+                            spec=lambda: L.XbarScoreboard(n))), nb, [nsel, nsel])
+
+
 def mk_bufferized_up(r, nb, rev, tokens=None):
     cls = stream.BufferizeEndpoints({"sink": stream.DIR_SINK, "source": stream.DIR_SOURCE})(stream._UpConverter)
     m = cls(nb, nb * r, r, rev)
@@ -352,6 +392,12 @@ def jobs(tier):
     if not quick:
         A(lambda: mk_shifter(3, tokens=[(0, 0, 0), (5, 0, 1), (2, 1, 0), (7, 1, 1), (4, 0, 0)]))
     A(lambda: mk_bufferized_up(2, 1, False, tokens=T2))
+    for lat in (0, 1, 2):
+        A(lambda lat=lat: mk_pipeactor(lat, 1))
+    for lat in (3, 4):
+        A(lambda lat=lat: mk_pipeactor(lat, 1, tokens=T2))
+    for n in (2, 3):
+        A(lambda n=n: mk_crossbar(n, 1))
 
     # ---- mode B: realistic sizes (8/32/64/128-bit, ratios 2-16 incl. 3/5/6, odd depths)
     B(lambda: ident("PipeValid/32b", stream.PipeValid(L32), "pipevalid", 1, 32))
@@ -417,6 +463,9 @@ def jobs(tier):
     B(lambda: mk_shifter(8))
     B(lambda: mk_shifter(32))
     B(lambda: mk_shifter(64, ext=True))
+    B(lambda: mk_pipeactor(1, 32))
+    B(lambda: mk_pipeactor(5, 64))
+    B(lambda: mk_crossbar(5, 16))
     B(lambda: mk_bufferized_up(4, 8, True))
     B(lambda: mk_bufferized_up(3, 32, False))
     return J
@@ -425,7 +474,8 @@ def jobs(tier):
 MAKERS = {"up": lambda *a: mk_up(*a), "down": lambda *a: mk_down(*a), "pack": lambda *a: mk_pack(*a),
           "unpack": lambda *a: mk_unpack(*a), "stride": lambda *a: mk_stride(*a),
           "gearbox": lambda *a: mk_gearbox(*a), "gate": lambda *a: mk_gate(*a), "delay": lambda *a: mk_delay(*a),
-          "shifter": lambda *a: mk_shifter(*a),
+          "shifter": lambda *a: mk_shifter(*a), "pipeactor": lambda *a: mk_pipeactor(*a),
+          "crossbar": lambda *a: mk_crossbar(*a),
           "mux": lambda n: L.MuxInst("Multiplexer(%d)" % n, stream.Multiplexer(L1, n), n, nb=1),
           "demux": lambda n: L.DemuxInst("Demultiplexer(%d)" % n, stream.Demultiplexer(L1, n), n, nb=1)}
 
